@@ -90,6 +90,7 @@ class Spec:
         self.sym_caps = True
         self.sym_counters = False       # counters independent symbolic values constrained by Inv (else built as sums)
         self.sym_history = False
+        self.sym_capneg = False         # a registered connection may have re-opened the capability negotiation (CAP LS / REQ after registration)
         self.history_len = 2
         self.reachable_modes = True     # user modes +O / +r only as default_user_modes gives them (they are not reachable otherwise)
         self.plain_chans = []           # channels whose attributes are concrete defaults: only existence, key and the actor's membership stay symbolic
@@ -329,7 +330,7 @@ class World:
                       timeout_sender=BoxV(Cell(mk_sender(tmo_ch)), 'Arc'), timeout_receiver=mk_receiver(tmo_ch),
                       pong_notifier=(VecV() if 'VecDeque' in self.prog.struct_field_types.get(('ConnState', 'pong_notifier'), '') else NONE()), quit_receiver=FuseFuture(OneshotReceiver(kill)), quit_sender=quit_sender,
                       dns_lookup_receiver=FuseFuture(OneshotReceiver(dns)),
-                      user_state=us, caps_negotation=caps_negotation, caps=S('CapState', multi_prefix=mp),
+                      user_state=us, caps_negotation=(self.B('capneg_' + key, True) if (registered and sp.sym_capneg) else caps_negotation), caps=S('CapState', multi_prefix=mp),
                       quit=quit_flag, conns_count=self.conns_count)
         if 'dns_lookup_sender' in prog.structs.get('ConnState', []):
             fields['dns_lookup_sender'] = NONE()
